@@ -42,6 +42,7 @@ BUF_SIZE = 4096
 # v1.0: RFC 4742
 MSG_DELIM = "]]>]]>"
 MSG_DELIM_LEN = len(MSG_DELIM)
+MSG_DELIM_BYTES = MSG_DELIM.encode()
 # v1.1: RFC 6242
 END_DELIM = '\n##\n'
 
@@ -119,10 +120,12 @@ class DefaultXMLParser:
         self.logger.debug("parsing netconf v1.0")
         buf = self._session._buffer
         buf.seek(self._parsing_pos10)
-        if MSG_DELIM in buf.read().decode('UTF-8'):
+        if MSG_DELIM_BYTES in buf.read():
             buf.seek(0)
-            msg, _, remaining = buf.read().decode('UTF-8').partition(MSG_DELIM)
-            msg = msg.strip()
+            # split on bytes and decode only the complete message: a read may
+            # end (and the look-back position may fall) inside a character
+            msg, _, remaining = buf.read().partition(MSG_DELIM_BYTES)
+            msg = msg.decode('UTF-8').strip()
             self._session._dispatch_message(msg)
             self._session._buffer = StringIO()
             self._parsing_pos10 = 0
@@ -131,10 +134,10 @@ class DefaultXMLParser:
                 # buffer, so we should try to parse again.
                 if type(self._session.parser) != DefaultXMLParser:
                     self.logger.debug('send remaining data to SAX parser')
-                    self._session.parser.parse(remaining.encode())
+                    self._session.parser.parse(remaining)
                 else:
                     self.logger.debug('Trying another round of parsing since there is still data')
-                    self._session._buffer.write(remaining.encode())
+                    self._session._buffer.write(remaining)
                     self._parse10()
         else:
             # handle case that MSG_DELIM is split over two chunks
@@ -188,7 +191,8 @@ class DefaultXMLParser:
                 # whole message, save back remainder (if any) to buffer
                 # and dispatch the message
                 start += re_end
-                message = ''.join(self._session._message_list)
+                # chunks are cut at octet granularity: decode the whole message
+                message = textify(b''.join(self._session._message_list))
                 self._session._message_list = []
                 self.logger.debug('_parse11: found end of message delimiter')
                 self._session._dispatch_message(message)
@@ -204,7 +208,7 @@ class DefaultXMLParser:
                 self.logger.debug('_parse11: chunk size %d bytes', digits)
                 if (data_len-start) >= (re_end + digits):
                     # we have enough data for the chunk
-                    fragment = textify(data[start+re_end:start+re_end+digits])
+                    fragment = data[start+re_end:start+re_end+digits]
                     self._session._message_list.append(fragment)
                     start += re_end + digits
                     self.logger.debug('_parse11: appending %d bytes', digits)
